@@ -6,7 +6,7 @@
 #[path = "../util.rs"]
 mod util;
 use dasp_signal::{self as signal, Signal};
-use std::cell::Cell;
+use std::cell::{Cell, RefCell};
 use std::rc::Rc;
 use util::*;
 
@@ -16,11 +16,13 @@ fn canon(x: f64) -> u64 { if x.is_nan() { 0x7ff8_0000_0000_0000 } else { x.to_bi
 fn hx(x: f64) -> String { format!("{:016x}", canon(x)) }
 fn raw(x: f64) -> String { format!("{:016x}", x.to_bits()) }
 
-/// counts how often the oscillator pulls a frame from its frequency signal
-struct Counted<S> { inner: S, n: Rc<Cell<u64>> }
+/// counts how often the oscillator pulls a frame from its frequency signal and records the frames it was
+/// handed; transparent otherwise (in particular it reports the inner signal's `is_exhausted()`)
+struct Counted<S> { inner: S, n: Rc<Cell<u64>>, log: Rc<RefCell<Vec<f64>>> }
 impl<S: Signal<Frame = f64>> Signal for Counted<S> {
     type Frame = f64;
-    fn next(&mut self) -> f64 { self.n.set(self.n.get() + 1); self.inner.next() }
+    fn next(&mut self) -> f64 { self.n.set(self.n.get() + 1); let x = self.inner.next(); self.log.borrow_mut().push(x); x }
+    fn is_exhausted(&self) -> bool { self.inner.is_exhausted() }
 }
 
 // ------------------------------------------------------------------------------------------
@@ -83,41 +85,157 @@ fn run4<St: signal::Step>(mk: impl Fn(usize) -> St, n: usize) -> Vec<[f64; 4]> {
     (0..n).map(|_| [ph.next(), si.next(), sa.next(), sq.next()]).collect()
 }
 
-#[derive(Clone, Copy, PartialEq)]
-enum VarSrc { GenMut, FromIter }
+#[derive(Clone, Copy, PartialEq, Debug)]
+enum VarSrc {
+    /// `signal::gen_mut(closure over the track)`: never reports exhaustion
+    GenMut,
+    /// `signal::from_iter(track)`: reports exhaustion after its last frame, yields 0.0 from then on
+    FromIter,
+    /// `signal::from_iter(track).offset_amp(base)`: reports exhaustion, keeps yielding `base`
+    OffsetAmp,
+    /// `signal::from_iter(track).map(|f| f + base)`
+    Map,
+    /// `signal::from_iter(track).add_amp(signal::gen_mut(|| base))`
+    AddAmp,
+    /// `signal::gen_mut(|| base).add_amp(signal::from_iter(track))`
+    AddAmpRev,
+    /// a user `Signal` over the track (0.0 afterwards) whose `is_exhausted()` is true from the start
+    AlwaysExhausted,
+}
+const ALL_SRC: [VarSrc; 7] = [VarSrc::GenMut, VarSrc::FromIter, VarSrc::OffsetAmp, VarSrc::Map, VarSrc::AddAmp, VarSrc::AddAmpRev, VarSrc::AlwaysExhausted];
+impl VarSrc {
+    fn label(self) -> &'static str {
+        match self { VarSrc::GenMut => "src:gen_mut", VarSrc::FromIter => "src:from_iter", VarSrc::OffsetAmp => "src:from_iter.offset_amp",
+            VarSrc::Map => "src:from_iter.map", VarSrc::AddAmp => "src:from_iter.add_amp(gen)", VarSrc::AddAmpRev => "src:gen.add_amp(from_iter)",
+            VarSrc::AlwaysExhausted => "src:custom-always-exhausted" }
+    }
+    fn has_base(self) -> bool { matches!(self, VarSrc::OffsetAmp | VarSrc::Map | VarSrc::AddAmp | VarSrc::AddAmpRev) }
+}
 
-/// frequency signal over a fixed list, 0.0 afterwards: `signal::gen_mut` or `signal::from_iter`
+/// A frequency signal: a finite `track`, on top of a constant `base` for the adaptor kinds, polled `n` times
+/// (`n` may exceed the track length: the run continues past the end of the finite part).
+#[derive(Clone)]
+struct VarSpec { kind: VarSrc, track: Vec<f64>, base: f64, n: usize }
+impl VarSpec {
+    fn plain(hz: &[f64], kind: VarSrc) -> VarSpec { VarSpec { kind, track: hz.to_vec(), base: 0.0, n: hz.len() } }
+    /// the frames the signal yields, in plain arithmetic: track[i] (+ base), then 0.0 (+ base)
+    fn yielded(&self) -> Vec<f64> {
+        (0..self.n).map(|i| { let t = if i < self.track.len() { self.track[i] } else { 0.0 }; if self.kind.has_base() { t + self.base } else { t } }).collect()
+    }
+    /// keep the case inside the stated domain: every yielded frequency finite, >= 0, hz/rate finite
+    fn sanitize(&mut self, rate: f64) {
+        let ok = |h: f64| h.is_finite() && h >= 0.0 && (h / rate).is_finite();
+        if !ok(self.base) { self.base = 0.0; }
+        let (b, hb) = (self.base, self.kind.has_base());
+        for t in self.track.iter_mut() { if !ok(*t) || (hb && !ok(*t + b)) { *t = 0.0; } }
+    }
+}
+
+struct AlwaysExhausted { v: Vec<f64>, i: usize }
+impl Signal for AlwaysExhausted {
+    type Frame = f64;
+    fn next(&mut self) -> f64 { let x = if self.i < self.v.len() { self.v[self.i] } else { 0.0 }; self.i += 1; x }
+    fn is_exhausted(&self) -> bool { true }
+}
+
+type BoxGen = signal::GenMut<Box<dyn FnMut() -> f64>, f64>;
+type Track = signal::FromIterator<std::vec::IntoIter<f64>>;
 enum HzSig {
-    G(signal::GenMut<Box<dyn FnMut() -> f64>, f64>),
-    I(signal::FromIterator<std::vec::IntoIter<f64>>),
+    G(BoxGen),
+    I(Track),
+    Off(signal::OffsetAmp<Track>),
+    Map(signal::Map<Track, Box<dyn FnMut(f64) -> f64>, f64>),
+    Add(signal::AddAmp<Track, BoxGen>),
+    AddR(signal::AddAmp<BoxGen, Track>),
+    Custom(AlwaysExhausted),
 }
 impl Signal for HzSig {
     type Frame = f64;
-    fn next(&mut self) -> f64 { match self { HzSig::G(s) => s.next(), HzSig::I(s) => s.next() } }
+    fn next(&mut self) -> f64 {
+        match self { HzSig::G(s) => s.next(), HzSig::I(s) => s.next(), HzSig::Off(s) => s.next(), HzSig::Map(s) => s.next(),
+            HzSig::Add(s) => s.next(), HzSig::AddR(s) => s.next(), HzSig::Custom(s) => s.next() }
+    }
+    fn is_exhausted(&self) -> bool {
+        match self { HzSig::G(s) => s.is_exhausted(), HzSig::I(s) => s.is_exhausted(), HzSig::Off(s) => s.is_exhausted(), HzSig::Map(s) => s.is_exhausted(),
+            HzSig::Add(s) => s.is_exhausted(), HzSig::AddR(s) => s.is_exhausted(), HzSig::Custom(s) => s.is_exhausted() }
+    }
 }
-fn hz_signal(hz: &[f64], kind: VarSrc) -> HzSig {
-    let v = hz.to_vec();
-    match kind {
+fn const_gen(base: f64) -> BoxGen { let f: Box<dyn FnMut() -> f64> = Box::new(move || base); signal::gen_mut(f) }
+fn hz_signal(sp: &VarSpec) -> HzSig {
+    let v = sp.track.clone();
+    let base = sp.base;
+    match sp.kind {
         VarSrc::GenMut => {
             let mut i = 0usize;
             let f: Box<dyn FnMut() -> f64> = Box::new(move || { let x = if i < v.len() { v[i] } else { 0.0 }; i += 1; x });
             HzSig::G(signal::gen_mut(f))
         }
         VarSrc::FromIter => HzSig::I(signal::from_iter(v.into_iter())),
+        VarSrc::OffsetAmp => HzSig::Off(signal::from_iter(v.into_iter()).offset_amp(base)),
+        VarSrc::Map => { let m: Box<dyn FnMut(f64) -> f64> = Box::new(move |f| f + base); HzSig::Map(signal::from_iter(v.into_iter()).map(m)) }
+        VarSrc::AddAmp => HzSig::Add(signal::from_iter(v.into_iter()).add_amp(const_gen(base))),
+        VarSrc::AddAmpRev => HzSig::AddR(const_gen(base).add_amp(signal::from_iter(v.into_iter()))),
+        VarSrc::AlwaysExhausted => HzSig::Custom(AlwaysExhausted { v, i: 0 }),
     }
 }
 
-struct OscObs { frames: Vec<[f64; 4]>, pulls: [u64; 4] }
+/// random frequency-signal spec for an `n`-frame run
+fn rand_var_spec(r: &mut Rng, rate: f64, n: usize, st: &mut Stream) -> VarSpec {
+    let kind = *r.pick(&ALL_SRC);
+    st.count(kind.label());
+    let mut sp = if kind.has_base() {
+        // finite modulation track (possibly empty) on a base frequency; the run continues past its end
+        let l = r.usize_below(n);
+        let mut track = if l == 0 { vec![] } else { rand_hz_list(r, rate, l, st) };
+        track.truncate(l);
+        let base = if r.chance(1, 8) { 0.0 } else { rand_hz(r, rate).0 };
+        VarSpec { kind, track, base, n }
+    } else {
+        // plain track; half of the runs stop at its end, the others run past it (the signal yields 0.0 there)
+        let extra = if r.chance(1, 2) { 0 } else { 1 + r.usize_below(12.min(n - 1)) };
+        let l = n - extra;
+        let mut track = rand_hz_list(r, rate, l, st);
+        track.truncate(l);
+        VarSpec { kind, track, base: 0.0, n }
+    };
+    if sp.n > sp.track.len() { st.count("var:runs-past-end-of-track"); }
+    sp.sanitize(rate);
+    sp
+}
+
+/// hz_n = the n-th frame the frequency signal actually handed out (recorded), else the plainly computed one
+fn yielded_or_expected(log: &[f64], e: &[f64], st: &mut Stream) -> Vec<f64> {
+    (0..e.len()).map(|i| if i < log.len() { if log[i].to_bits() != e[i].to_bits() { st.count("note:hz-signal-frame-differs-from-plain-sum"); } log[i] } else { e[i] }).collect()
+}
+
+struct OscObs { frames: Vec<[f64; 4]>, pulls: [u64; 4], log: Vec<f64> }
 
 fn osc_const(rate: f64, hz: f64, n: usize) -> Option<OscObs> {
-    guarded(|| OscObs { frames: run4(|_| signal::rate(rate).const_hz(hz), n), pulls: [0; 4] })
+    guarded(|| OscObs { frames: run4(|_| signal::rate(rate).const_hz(hz), n), pulls: [0; 4], log: vec![] })
 }
-fn osc_var(rate: f64, hz: &[f64], kind: VarSrc) -> Option<OscObs> {
+fn osc_var(rate: f64, sp: &VarSpec) -> Option<OscObs> {
     guarded(|| {
         let cs: Vec<Rc<Cell<u64>>> = (0..4).map(|_| Rc::new(Cell::new(0))).collect();
-        let frames = run4(|i| signal::rate(rate).hz(Counted { inner: hz_signal(hz, kind), n: cs[i].clone() }), hz.len());
-        OscObs { frames, pulls: [cs[0].get(), cs[1].get(), cs[2].get(), cs[3].get()] }
+        let logs: Vec<Rc<RefCell<Vec<f64>>>> = (0..4).map(|_| Rc::new(RefCell::new(vec![]))).collect();
+        let frames = run4(|i| signal::rate(rate).hz(Counted { inner: hz_signal(sp), n: cs[i].clone(), log: logs[i].clone() }), sp.n);
+        let log = logs[0].borrow().clone();
+        OscObs { frames, pulls: [cs[0].get(), cs[1].get(), cs[2].get(), cs[3].get()], log }
     })
+}
+
+/// run one variable-frequency case on the four oscillators, record it, apply the oracles
+fn do_osc_var(st: &mut Stream, pre: &str, rate: f64, sp: &VarSpec, record: bool, label: &str) {
+    let e = sp.yielded();
+    let mut case = if record { format!("{}osc var {}", pre, raw(rate)) } else { format!("{} osc var {} <{} frames, {:?}, track {}, base {}>", label, raw(rate), sp.n, sp.kind, sp.track.len(), raw(sp.base)) };
+    if record { for h in &e { case.push(' '); case.push_str(&raw(*h)); } }
+    let obs = osc_var(rate, sp);
+    if record { st.case(&case, &osc_obs_line(&obs), e.iter().any(|h| *h != 0.0), (4 * sp.n) as u64); }
+    let mut short = if case.len() > 600 { format!("{}…", &case[..600]) } else { case.clone() };
+    short.push_str(&format!("   [frequency signal: {:?}, track of {} frames, base {:e}, {} frames pulled]", sp.kind, sp.track.len(), sp.base, sp.n));
+    match &obs {
+        Some(o) => { let hz = yielded_or_expected(&o.log, &e, st); osc_oracle(st, &short, rate, &|i| hz[i], true, o); }
+        None => st.oracle_fail("panic", &short, "frames", "panic"),
+    }
 }
 
 // ------------------------------------------------------------------------------------------
@@ -243,13 +361,17 @@ fn gen_osc(st: &mut Stream, args: &Args, cf: &Cfg) {
     }
     // --- short fixed variable-frequency examples (readable minimal cases)
     for (rate, hz) in [(4.0, vec![1.0, 1.0, 2.0, 0.0, 6.0, 1.0, 3.0, 1.0]), (1.0, vec![0.25, 0.5, 2.5, 0.125, 0.0, 7.0, 0.75, 0.375]), (3.0, vec![1.0, 2.0, 4.0, 0.5, 0.1, 10.0])] {
-        for kind in [VarSrc::GenMut, VarSrc::FromIter] {
-            let mut case = format!("{}osc var {}", pre, raw(rate));
-            for h in &hz { case.push(' '); case.push_str(&raw(*h)); }
-            let obs = osc_var(rate, &hz, kind);
-            st.case(&case, &osc_obs_line(&obs), true, (4 * hz.len()) as u64);
+        for kind in [VarSrc::GenMut, VarSrc::FromIter, VarSrc::AlwaysExhausted] {
             st.count("fixed-example");
-            match &obs { Some(o) => { osc_oracle(st, &case, rate, &|i| hz[i], true, o); } None => st.oracle_fail("panic", &case, "frames", "panic") }
+            do_osc_var(st, pre, rate, &VarSpec::plain(&hz, kind), true, "");
+        }
+    }
+    // --- frequency signals that report exhaustion while they keep yielding frames: a finite modulation track on a
+    //     base frequency, the run continuing past the end of the track (rate 8: track [1, 2] + base 1, 7 frames)
+    for kind in ALL_SRC {
+        for (rate, track, base, n) in [(8.0, vec![1.0, 2.0], 1.0, 7usize), (8.0, vec![], 3.0, 5), (4.0, vec![0.5, 0.0, 6.0], 0.25, 9)] {
+            st.count("fixed-example");
+            do_osc_var(st, pre, rate, &VarSpec { kind, track, base, n }, true, "");
         }
     }
     // --- probe of the known finding (every run): rate = 1e-300, hz = 1e300, both finite, hz/rate = +inf
@@ -278,16 +400,9 @@ fn gen_osc(st: &mut Stream, args: &Args, cf: &Cfg) {
             st.case(&case, &osc_obs_line(&obs), hz != 0.0, (4 * n) as u64);
             match &obs { Some(o) => { osc_oracle(st, &case, rate, &|_| hz, false, o); } None => st.oracle_fail("panic", &case, "frames", "panic") }
         } else {
-            let mut hz = rand_hz_list(&mut r, rate, n, st);
-            for h in hz.iter_mut() { if !(*h / rate).is_finite() { *h = 0.0; } }
-            let kind = if r.chance(1, 2) { VarSrc::GenMut } else { VarSrc::FromIter };
-            st.count("kind:var"); st.count(rl); st.count(if kind == VarSrc::GenMut { "src:gen_mut" } else { "src:from_iter" });
-            let mut case = format!("{}osc var {}", pre, raw(rate));
-            for h in &hz { case.push(' '); case.push_str(&raw(*h)); }
-            let obs = osc_var(rate, &hz, kind);
-            st.case(&case, &osc_obs_line(&obs), hz.iter().any(|h| *h != 0.0), (4 * n) as u64);
-            let short = if case.len() > 600 { format!("{}…", &case[..600]) } else { case.clone() };
-            match &obs { Some(o) => { osc_oracle(st, &short, rate, &|i| hz[i], true, o); } None => st.oracle_fail("panic", &short, "frames", "panic") }
+            let sp = rand_var_spec(&mut r, rate, n, st);
+            st.count("kind:var"); st.count(rl);
+            do_osc_var(st, pre, rate, &sp, true, "");
         }
     }
     // --- long native runs (oracles only, no model): tiny steps, steps >= 1, non-dyadic
@@ -300,11 +415,10 @@ fn gen_osc(st: &mut Stream, args: &Args, cf: &Cfg) {
         st.count("native-long-run");
         match osc_const(rate, hz, long_n) { Some(o) => { osc_oracle(st, &case, rate, &|_| hz, false, &o); } None => st.oracle_fail("panic", &case, "frames", "panic") }
         // varying frequency
-        let hzs = rand_hz_list(&mut r, rate, long_n, st).into_iter().map(|h| if (h / rate).is_finite() { h } else { 0.0 }).collect::<Vec<_>>();
-        let case = format!("(native long run) osc var {} <{} frames, seed {}, run {}>", raw(rate), long_n, args.seed, k);
-        match osc_var(rate, &hzs, VarSrc::GenMut) { Some(o) => { osc_oracle(st, &case, rate, &|i| hzs[i], true, &o); } None => st.oracle_fail("panic", &case, "frames", "panic") }
+        let sp = rand_var_spec(&mut r, rate, long_n, st);
+        do_osc_var(st, pre, rate, &sp, false, &format!("(native long run, seed {}, run {})", args.seed, k));
     }
-    st.note("oracles per frame: phase == running x-floor(x) sum, 0<=phase<1, sine == sin(2*pi*phase) in [-1,1], saw == 1-2*phase in [-1,1], square by half-cycle; per var case: pulls == frames for each of the 4 oscillators");
+    st.note("oracles per frame: phase == running x-floor(x) sum, 0<=phase<1, sine == sin(2*pi*phase) in [-1,1], saw == 1-2*phase in [-1,1], square by half-cycle; per var case: hz_n = the n-th frame the frequency signal actually handed out (recorded by the pull counter), pulls == frames for each of the 4 oscillators; frequency signals: gen_mut, from_iter, from_iter.offset_amp(base), from_iter.map(+base), from_iter.add_amp(gen base), gen(base).add_amp(from_iter), a custom always-exhausted Signal; half of the runs continue past the end of the finite track");
 }
 
 // ------------------------------------------------------------------------------------------
@@ -393,13 +507,24 @@ fn sim_line(o: &Option<SimObs>) -> String {
 fn sim_const(rate: f64, hz: f64, n: usize) -> Option<SimObs> {
     guarded(|| { let mut s = signal::rate(rate).const_hz(hz).noise_simplex(); SimObs { frames: (0..n).map(|_| s.next()).collect(), pulls: 0 } })
 }
-fn sim_var(rate: f64, hz: &[f64], kind: VarSrc) -> Option<SimObs> {
+fn sim_var(rate: f64, sp: &VarSpec) -> Option<SimObs> {
     guarded(|| {
         let c = Rc::new(Cell::new(0));
-        let mut s = signal::rate(rate).hz(Counted { inner: hz_signal(hz, kind), n: c.clone() }).noise_simplex();
-        let frames = (0..hz.len()).map(|_| s.next()).collect();
+        let mut s = signal::rate(rate).hz(Counted { inner: hz_signal(sp), n: c.clone(), log: Rc::new(RefCell::new(vec![])) }).noise_simplex();
+        let frames = (0..sp.n).map(|_| s.next()).collect();
         SimObs { frames, pulls: c.get() }
     })
+}
+/// run one variable-frequency simplex case, record it, apply the oracles; returns the largest |output|
+fn do_sim_var(st: &mut Stream, pre: &str, rate: f64, sp: &VarSpec) -> f64 {
+    let e = sp.yielded();
+    let mut case = format!("{}simplex var {}", pre, raw(rate));
+    for h in &e { case.push(' '); case.push_str(&raw(*h)); }
+    let obs = sim_var(rate, sp);
+    st.case(&case, &sim_line(&obs), e.iter().any(|h| *h != 0.0), sp.n as u64);
+    let mut short = if case.len() > 600 { format!("{}…", &case[..600]) } else { case.clone() };
+    short.push_str(&format!("   [frequency signal: {:?}, track of {} frames, base {:e}, {} frames pulled]", sp.kind, sp.track.len(), sp.base, sp.n));
+    match &obs { Some(o) => sim_oracle(st, &short, rate, &|i| e[i], true, o), None => { st.oracle_fail("panic", &short, "frames", "panic"); 0.0 } }
 }
 /// returns the largest |output| seen
 fn sim_oracle(st: &mut Stream, case: &str, rate: f64, hz: &dyn Fn(usize) -> f64, var: bool, o: &SimObs) -> f64 {
@@ -429,14 +554,29 @@ fn gen_simplex(st: &mut Stream, args: &Args, cf: &Cfg) {
     let pre = cf.prefix;
     let mut r = Rng::new(args.seed, &format!("{}simplex", cf.tag));
     let mut mx = 0.0f64;
-    for (rate, hz) in [(1.0, vec![0.5; 24]), (2.0, vec![313.0, 0.0, 0.5, 1.0, 3.0, 131072.0, 1.0, 0.25]), (4.0, vec![1.0, 1.0, 2.0, 0.0, 6.0, 1.0, 3.0, 1.0])] {
-        for kind in [VarSrc::GenMut, VarSrc::FromIter] {
-            let mut case = format!("{}simplex var {}", pre, raw(rate));
-            for h in &hz { case.push(' '); case.push_str(&raw(*h)); }
-            let obs = sim_var(rate, &hz, kind);
-            st.case(&case, &sim_line(&obs), true, hz.len() as u64);
+    for (rate, hz) in [(1.0, vec![0.5; 24]), (2.0, vec![313.0, 0.0, 0.5, 1.0, 3.0, 131072.0, 1.0, 0.25]), (4.0, vec![1.0, 1.0, 2.0, 0.0, 6.0, 1.0, 3.0, 1.0]),
+        // into the last lattice cell before the 2^16 wrap, through it in quarter steps, across the wrap and on
+        (1.0, vec![65535.0, 0.25, 0.25, 0.25, 0.25, 0.25, 0.5, 65535.5, 0.375, 0.25, 65535.0, 0.999, 0.001, 1.0]),
+        (44100.0, vec![44100.0 * 65535.125, 11025.0, 11025.0, 11025.0, 11025.0, 22050.0])] {
+        for kind in [VarSrc::GenMut, VarSrc::FromIter, VarSrc::AlwaysExhausted] {
             st.count("fixed-example");
-            match &obs { Some(o) => { mx = mx.max(sim_oracle(st, &case, rate, &|i| hz[i], true, o)); } None => st.oracle_fail("panic", &case, "frames", "panic") }
+            mx = mx.max(do_sim_var(st, pre, rate, &VarSpec::plain(&hz, kind)));
+        }
+    }
+    // constant steps that land in the last cell on the first frames: 65535.5 per frame walks 65535.5, 65535.0, 65534.5, ...
+    for &(rate, hz) in &[(1.0, 65535.5), (1.0, 65535.999), (2.0, 131071.5), (1.0, 65536.0), (1.0, 65536.25)] {
+        let n = 12;
+        let case = format!("{}simplex const {} {} {}", pre, raw(rate), raw(hz), n);
+        let obs = sim_const(rate, hz, n);
+        st.case(&case, &sim_line(&obs), true, n as u64);
+        st.count("fixed-example:last-cell");
+        match &obs { Some(o) => { mx = mx.max(sim_oracle(st, &case, rate, &|_| hz, false, o)); } None => st.oracle_fail("panic", &case, "frames", "panic") }
+    }
+    // frequency signals that report exhaustion while they keep yielding frames (run continues past the track)
+    for kind in ALL_SRC {
+        for (rate, track, base, n) in [(8.0, vec![1.0, 2.0], 1.0, 7usize), (1.0, vec![65535.25], 0.25, 8)] {
+            st.count("fixed-example");
+            mx = mx.max(do_sim_var(st, pre, rate, &VarSpec { kind, track, base, n }));
         }
     }
     {
@@ -468,17 +608,23 @@ fn gen_simplex(st: &mut Stream, args: &Args, cf: &Cfg) {
             st.case(&case, &sim_line(&obs), hz != 0.0, n as u64);
             match &obs { Some(o) => { mx = mx.max(sim_oracle(st, &case, rate, &|_| hz, false, o)); } None => st.oracle_fail("panic", &case, "frames", "panic") }
         } else {
-            let mut hz = rand_hz_list(&mut r, rate, n, st);
-            if r.chance(1, 2) { for h in hz.iter_mut() { *h *= 64.0; } st.count("var:x64"); }
-            for h in hz.iter_mut() { if !(h.is_finite() && (*h / rate).is_finite()) { *h = 0.0; } }
-            let kind = if r.chance(1, 2) { VarSrc::GenMut } else { VarSrc::FromIter };
+            let mut sp = rand_var_spec(&mut r, rate, n, st);
+            match r.below(5) {
+                0 | 1 => { for h in sp.track.iter_mut() { *h *= 64.0; } sp.base *= 64.0; st.count("var:x64"); }
+                2 if !sp.track.is_empty() => {
+                    // first step jumps into the last lattice cell before the 2^16 wrap (or just short of it); the
+                    // following small steps walk through that cell and across the wrap
+                    if sp.kind.has_base() { sp.base = rate * 0.05 * r.f64_unit(); }
+                    let b = if sp.kind.has_base() { sp.base } else { 0.0 };
+                    sp.track[0] = (rate * (65534.5 + 1.5 * r.f64_unit()) - b).max(0.0);
+                    for h in sp.track.iter_mut().skip(1) { *h = rate * 0.3 * r.f64_unit(); }
+                    st.count("var:last-cell-and-wrap");
+                }
+                _ => {}
+            }
+            sp.sanitize(rate);
             st.count("kind:var"); st.count(rl);
-            let mut case = format!("{}simplex var {}", pre, raw(rate));
-            for h in &hz { case.push(' '); case.push_str(&raw(*h)); }
-            let obs = sim_var(rate, &hz, kind);
-            st.case(&case, &sim_line(&obs), hz.iter().any(|h| *h != 0.0), n as u64);
-            let short = if case.len() > 600 { format!("{}…", &case[..600]) } else { case.clone() };
-            match &obs { Some(o) => { mx = mx.max(sim_oracle(st, &short, rate, &|i| hz[i], true, o)); } None => st.oracle_fail("panic", &short, "frames", "panic") }
+            mx = mx.max(do_sim_var(st, pre, rate, &sp));
         }
     }
     // long native runs: dense sweeps through all 65536 lattice cells (range oracle only)
